@@ -5,7 +5,8 @@
    prefix length k of EVERY script, every list of rows, the primary file holds an allowed
    state.  One flush is one atomic write in this model. *)
 From Coq Require Import List ZArith NArith Bool.
-From TF Require Import Base Query Index DB IO proofs.IOP proofs.PlanP proofs.HistoryP.
+From TF Require Import Base Query Index DB IO proofs.IOP proofs.PlanP proofs.HistoryP proofs.IOGenP.
+From TF Require gen.IOGen.
 Import ListNotations.
 
 Theorem C12_crash_atomic : forall old p k,
@@ -44,9 +45,16 @@ Proof. exact history_crash. Qed.
 Theorem C12_state_after_is_run : forall E C norm ops s, state_after E C norm s ops = snd (run E C norm s ops).
 Proof. exact state_after_run. Qed.
 
+(* the I/O calls REGENERATED from tinyflux/storages.py on every run (gen/IOGen.v: symbolic execution of CSVStorage.append, _write([]) / reset,
+   _init_temp_storage, _swap_temp_with_primary, _cleanup_temp_storage, __iter__ along their success path) are the scripts of the model, for every
+   plan of an operation: every theorem of this file about script_of is a theorem about the calls the source makes now *)
+Theorem C12_source_scripts_are_the_model : forall old p, gen_script_of old p = script_of old p.
+Proof. exact gen_script_of_eq. Qed.
+
 Print Assumptions C12_crash_atomic.
 Print Assumptions C12_history_crash.
 Print Assumptions C12_crash_states.
 Print Assumptions C12_crash_states_are_prefixes.
 Print Assumptions C12_insert_keeps_old.
 Print Assumptions C12_operation_crash.
+Print Assumptions C12_source_scripts_are_the_model.
